@@ -132,7 +132,8 @@ def find_state(prog, m):
                             and fi.name not in ("__init_subclass__",):
                         out.append((fi, norm(root), x, "class-level container written from a method"))
                     if isinstance(root, ast.Attribute) and isinstance(root.value, ast.Name) and root.value.id == "self" \
-                            and fi.cls is not None and _is_cache_like(root.attr):
+                            and fi.cls is not None and (_is_cache_like(root.attr) or (fi.name not in ("__init__", "__new__") and any(
+                                getattr(k_, "name", None) == "Property" for k_ in (fi.cls.mro or [])))):
                         out.append((fi, norm(root), x, "instance cache written"))
                 # instance attribute assigned outside the constructor
                 if isinstance(t, ast.Attribute) and isinstance(t.value, ast.Name) and t.value.id == "self" and fi.cls is not None \
@@ -149,6 +150,12 @@ def find_state(prog, m):
                 root = recv
                 while isinstance(root, ast.Subscript):
                     root = root.value
+                # a property object (validator) is shared by every instance of its type and lives as long as the process:
+                # a container on it that a method fills is memory of earlier inputs
+                if isinstance(root, ast.Attribute) and isinstance(root.value, ast.Name) and root.value.id == "self" \
+                        and fi.cls is not None and fi.name not in ("__init__", "__new__") \
+                        and any(getattr(k_, "name", None) == "Property" for k_ in (fi.cls.mro or [])):
+                    out.append((fi, norm(root), x, "container of a shared property object mutated by a method"))
                 if isinstance(root, ast.Name) and root.id in modnames and root.id not in (local_names - globals_declared):
                     out.append((fi, root.id, x, "module-level container mutated from a function"))
                 if isinstance(root, ast.Attribute) and isinstance(root.value, ast.Name) and (
